@@ -329,7 +329,7 @@ func scenAPICluster(x *Ctx) {
 		x.WaitFor(3*time.Second, func() bool { s := x.C.Node(target).Sample(); return s != nil && s.State == "candidate" })
 	case "shutdown":
 		target = fol[0]
-		x.C.Node(target).Raft.Stop()
+		x.C.Node(target).R().Stop()
 	case "deposed-leader":
 		x.C.Net.Partition([]string{l}, fol)
 		x.C.WaitLeaderAmong(fol, 3*time.Second)
@@ -340,7 +340,7 @@ func scenAPICluster(x *Ctx) {
 		x.Cover("api-role-shutdown")
 	}
 	x.Step("role %s on %s", role, target)
-	nd := x.C.Node(target).Raft
+	nd := x.C.Node(target).R()
 	var wg sync.WaitGroup
 	// concurrent cluster activity
 	wg.Add(1)
@@ -379,12 +379,12 @@ func (a *apiCtx) membershipClause() {
 			n.Start()
 		}
 	}
-	term0 := x.C.Node(l).Raft.Status().Term
+	term0 := x.C.Node(l).R().Status().Term
 	to := 3 * time.Second
-	fut := x.C.Node(l).Raft.AddServer("nvx", "nvx", false, to)
+	fut := x.C.Node(l).R().AddServer("nvx", "nvx", false, to)
 	t0 := time.Now()
 	res := fut.Await() // awaited without retrying
-	st := x.C.Node(l).Raft.VerifState()
+	st := x.C.Node(l).R().VerifState()
 	committed := st.CommittedConfiguration != nil && st.Configuration != nil && st.CommittedConfiguration.Index == st.Configuration.Index
 	_, member := st.Configuration.Members["nvx"]
 	stillLeader := st.State == raft.Leader && st.Term == term0
